@@ -5,7 +5,8 @@
 From Coq Require Import ZArith NArith Reals List String Bool.
 From Flocq Require Import Core BinarySingleNaN.
 From SV Require Import Num.Mod360 Num.Mod360Proofs Num.AngleSites Num.AngleSitesProofs
-                       Num.Dec6 Num.Dec6Proofs Num.Dec6CarveProofs Num.VecText Num.VecTextProofs Num.Mod360Id Num.VecTextFloat SM.FrozenOps SM.FrozenOpsProofs SM.FrozenCopy SM.FrozenCopyProofs.
+                       Num.Dec6 Num.Dec6Proofs Num.Dec6CarveProofs Num.VecText Num.VecTextProofs Num.Mod360Id Num.VecTextFloat SM.FrozenOps SM.FrozenOpsProofs SM.FrozenCopy SM.FrozenCopyProofs
+                       SM.FrozenCopyValue SM.FrozenCopyValueProofs.
 Import ListNotations.
 
 (** ------------------------------------------------------------------ (a) range *)
@@ -93,6 +94,37 @@ Theorem c05_copy_alias_refuted :
   table_ok imul_table no_carve = true /\ dst = 0%nat /\
   nth_error (FrozenOps.run nat imul_table [({| meth := "__imul__"; recv := dst; args := [] |}, fun _ => 7%nat, [])] st') 0%nat = Some ("Angle"%string, 7%nat).
 Proof. exact copy_alias_refuted. Qed.
+
+(** The VALUE of a copy.  [copy_shapes] (generated: each of copy / __copy__ / __deepcopy__ / __reduce__ / freeze /
+    thaw of the six classes run symbolically on a source whose slots hold floats) lists which source slot reaches
+    which result slot through which conversion.  For every table that passes [copy_shapes_ok]: the result has the class
+    the method promises; a new Vec/FrozenVec/Matrix/FrozenMatrix has in every slot exactly the value of the same slot
+    of the source (whatever the values are, any value type) ... *)
+Theorem c05_copy_result_class : forall l, copy_shapes_ok l = true ->
+  forall c m rc sh, In (c, m, rc, sh) l -> rc = result_class c m.
+Proof. exact copy_result_class. Qed.
+
+Theorem c05_copy_value_equal_exact : forall l, copy_shapes_ok l = true ->
+  forall c m rc t, In (c, m, rc, CSlots t) l -> angle_family rc = false ->
+  forall (V : Type) (norm : V -> V) (dflt : V) (src : string -> V) s, In s (slots_of rc) -> built V norm dflt t src s = src s.
+Proof. exact copy_value_equal_exact. Qed.
+
+(** ... and a new Angle/FrozenAngle built from a source that satisfies the range invariant (c05_angle_range_invariant)
+    has in every slot a finite double with the same real value, again in [0, 360): the constructor's and the property
+    setters' [% 360 % 360] is the identity there (c05_double360_id).  Composes (a) with (b): "a copy is equal to its
+    source" for Angle.copy() / pickle needs the range invariant of the source. *)
+Theorem c05_copy_value_equal_angles : forall l, copy_shapes_ok l = true ->
+  forall c m rc t, In (c, m, rc, CSlots t) l -> angle_family rc = true ->
+  forall src : string -> b64, (forall s, In s (slots_of rc) -> in_range (src s)) ->
+  forall s, In s (slots_of rc) ->
+    same64 (built b64 double360 (B754_zero false) t src s) (src s) /\ in_range (built b64 double360 (B754_zero false) t src s).
+Proof. exact copy_value_equal_angles. Qed.
+
+(** necessary: a copy() that swaps two slots fails the check and the built object differs *)
+Theorem c05_copy_value_refuted :
+  copy_shapes_ok [("Vec"%string, "copy"%string, "Vec"%string, CSlots swapped)] = false /\
+  built nat (fun v => v) 0%nat swapped (fun s => if String.eqb s "_y" then 1%nat else if String.eqb s "_z" then 2%nat else 0%nat) "_y"%string = 2%nat.
+Proof. exact copy_value_refuted. Qed.
 
 (** ------------------------------------------------------------------ (c) text *)
 
